@@ -240,9 +240,10 @@ Proof. split; reflexivity. Qed.
 (** ** 5. The data segment *)
 
 Theorem layout : forall data m a vars ms' vars',
-  write_data data (MFlat m) a vars = POk (ms', vars') -> zero_ok data -> 16384 <= a ->
-  exists L e,
-    lay data a = Some (L, e) /\
+  write_data data (MFlat m) a vars = POk (ms', vars') -> zero_ok data -> 16384 <= a <= 2 ^ 32 ->
+  exists L e m',
+    (* a successful data pass ends at or below 2^32 (MemorySizeException otherwise) *)
+    lay data a = Some (L, e) /\ e <= 2 ^ 32 /\ ms' = MFlat m' /\
     (* the variable table: one entry per declaration, in order, after the existing ones *)
     vars' = vars ++ table L /\
     (forall k y, var_lookup vars k = Some y -> var_lookup vars' k = Some y) /\
@@ -250,19 +251,18 @@ Theorem layout : forall data m a vars ms' vars',
     (* placement: first at align4 a, each next one at align4 of the end of its predecessor *)
     chain a L e /\ Forall (placed a e) L /\
     Forall2 (fun d v => decl_image (snd d) = Some (vl_name v, vl_esize v, vl_bytes v, vl_extent v)) data L /\
-    (* contents, as long as the data segment ends at or below 2^32 *)
-    (e <= 2 ^ 32 ->
-     exists m', ms' = MFlat m' /\
-       (forall x, mget m' x = overlay L (mget m) x) /\
-       (forall v x, In v L -> in_var v x -> mget m' x = nth (Z.to_nat (x - vl_start v)) (vl_bytes v) 0) /\
-       (forall x, (forall v, In v L -> ~ in_var v x) -> mget m' x = mget m x)).
+    (* contents: every variable holds its bytes (later declarations never overwrite earlier ones),
+       every other cell is unchanged *)
+    (forall x, mget m' x = overlay L (mget m) x) /\
+    (forall v x, In v L -> in_var v x -> mget m' x = nth (Z.to_nat (x - vl_start v)) (vl_bytes v) 0) /\
+    (forall x, (forall v, In v L -> ~ in_var v x) -> mget m' x = mget m x).
 Proof. exact layout_lem. Qed.
 Print Assumptions layout.
 
-(* the same table and placement on every memory system (no hypothesis at all) *)
+(* the same table, placement and end bound on every memory system (no hypothesis at all) *)
 Theorem layout_table : forall data ms a vars ms' vars',
   write_data data ms a vars = POk (ms', vars') ->
-  exists L e, lay data a = Some (L, e) /\ table_ok vars vars' L.
+  exists L e, lay data a = Some (L, e) /\ table_ok vars vars' L /\ (a <= 4294967296 -> e <= 4294967296).
 Proof. exact write_data_lay. Qed.
 Print Assumptions layout_table.
 
@@ -347,10 +347,9 @@ Example help_page_example :
   end.
 Proof. vm_compute. repeat split; reflexivity. Qed.
 
-(* FINDING (also on the Python, see the report): a .zero whose extent carries the address counter
-   past 2^32 makes a later variable wrap around onto an earlier one.  Here a = 1 is overwritten by
-   c = 2 (lb x1, a reads 2), c is recorded at 2^32 + 16384 and la x3, c yields 16384 = the address
-   of a.  Hence the hypothesis [e <= 2 ^ 32] in [layout]. *)
+(* A .zero whose extent would carry the address counter past 2^32 used to make a later variable wrap
+   around onto an earlier one (finding of this property; fixed in the repository, commit d9ad93b).
+   The data pass now rejects such a program: MemorySizeException(2^32 / 4). *)
 Definition wrap_toks : list (Z * rline) :=
   [ (1, RDirective 1);
     (2, RVarDecl 1 0 [codes "1"]);
@@ -360,14 +359,17 @@ Definition wrap_toks : list (Z * rline) :=
     (6, by_name 27 (codes "1") 1 None);
     (7, by_name 27 (codes "2") 3 None);
     (8, by_name 55 (codes "3") 3 None) ].
-Example later_declaration_overwrites_when_wrapping :
-  match assemble wrap_toks (MFlat []) with
-  | POk (m', img) =>
-      let r := single_run 100 (init_st (i_instrs img) m' None) in
-      map (rget (fst r)) [1; 2; 3] = [2; 2; 16384] /\
-      i_vars img = [(1, (16384, 1)); (2, (16388, 4)); (3, (4294983680, 1))] /\ m' = MFlat [(16384, 2)]
+Example data_segment_past_address_space_rejected :
+  assemble wrap_toks (MFlat []) = PErr (PMemSize 1073741824).
+Proof. vm_compute. reflexivity. Qed.
+(* the largest .zero that still fits after a: the segment ends exactly at 2^32 *)
+Example data_segment_up_to_address_space_accepted :
+  match assemble [(1, RDirective 1); (2, RVarDecl 1 0 [codes "1"]); (3, RZeroDecl 2 (codes "1073737727"))] (MFlat []) with
+  | POk (m', img) => i_vars img = [(1, (16384, 1)); (2, (16388, 4))] /\ m' = MFlat [(16384, 1)]
   | PErr _ => False
-  end.
+  end /\
+  assemble [(1, RDirective 1); (2, RVarDecl 1 0 [codes "1"]); (3, RZeroDecl 2 (codes "1073737728"))] (MFlat [])
+    = PErr (PMemSize 1073741824).
 Proof. vm_compute. repeat split; reflexivity. Qed.
 
 (** ** 7. Segment order *)
